@@ -235,14 +235,56 @@ func (vc *VC) execInstr(fr *Frame, st *State, instr ssa.Instruction) {
 		vc.execLookup(fr, st, x)
 
 	case *ssa.Range:
-		// iterator over map or string: opaque
-		fr.env[x] = vc.fresh("Int", "iter")
+		// iterator over map or string
+		it := vc.fresh("Int", "iter")
+		fr.env[x] = it
+		if mt, isMap := x.X.Type().Underlying().(*types.Map); isMap {
+			// ghost traversal order: keys iterkey(0..n-1) enumerate exactly the domain (map unchanged while iterating)
+			vc.n++
+			id := vc.n
+			kf := fmt.Sprintf("iterkey_%d", id)
+			vc.declareOnceRaw(kf, fmt.Sprintf("(declare-fun %s (Int) %s)", kf, vc.sortOf(mt.Key())))
+			n := vc.fresh("Int", "iterlen")
+			m := vc.value(fr, st, x.X)
+			dom, _ := vc.mapSV(mt)
+			d := vc.def(fmt.Sprintf("(Array %s Bool)", vc.sortOf(mt.Key())), fmt.Sprintf("(select %s %s)", vc.get(st, dom), m), "iterdom")
+			vc.fact(st.pc, fmt.Sprintf("(>= %s 0)", n))
+			vc.fact(st.pc, fmt.Sprintf("(=> (= %s 0) (= %s 0))", m, n))
+			vc.fact(st.pc, fmt.Sprintf("(forall ((j Int)) (! (=> (and (<= 0 j) (< j %s)) (select %s (%s j))) :pattern ((%s j))))", n, d, kf, kf))
+			vc.fact(st.pc, fmt.Sprintf("(forall ((k %s)) (! (=> (and (not (= %s 0)) (select %s k)) (exists ((j Int)) (and (<= 0 j) (< j %s) (= (%s j) k)))) :pattern ((select %s k))))", vc.sortOf(mt.Key()), m, d, n, kf, d))
+			pos := fmt.Sprintf("G_iterpos_%d", id)
+			vc.svDeclare(pos, "Int")
+			st.vars[pos] = "0"
+			vc.iters[x] = &mapIter{keyFn: kf, n: n, pos: pos, m: m, keyType: mt.Key()}
+			vc.lastIter = vc.iters[x]
+			vc.assume("map iteration visits every key of the map exactly once in an arbitrary order (ghost enumeration); the map is not modified during the iteration")
+		}
 
 	case *ssa.Next:
-		// (ok, key, value): havoc; for maps key is in the domain when ok
 		rng := x.Iter.(*ssa.Range)
-		ok := vc.fresh("Bool", "next_ok")
 		tt := x.Type().(*types.Tuple)
+		if mi, ok := vc.iters[rng]; ok {
+			pos := vc.get(st, mi.pos)
+			okT := vc.def("Bool", fmt.Sprintf("(< %s %s)", pos, mi.n), "next_ok")
+			k := vc.def(vc.sortOf(tt.At(1).Type()), fmt.Sprintf("(%s %s)", mi.keyFn, pos), "next_k")
+			mt := rng.X.Type().Underlying().(*types.Map)
+			_, val := vc.mapSV(mt)
+			var v string
+			if isInvalid(tt.At(2).Type()) {
+				v = "0"
+			} else {
+				v = vc.def(vc.sortOf(tt.At(2).Type()), fmt.Sprintf("(select (select %s %s) %s)", vc.get(st, val), mi.m, k), "next_v")
+				vc.typeFacts(st, v, tt.At(2).Type())
+			}
+			if !isInvalid(tt.At(1).Type()) {
+				vc.typeFacts(st, k, tt.At(1).Type())
+			}
+			vc.set(st, mi.pos, fmt.Sprintf("(ite %s (+ %s 1) %s)", okT, pos, pos))
+			fr.tuples[x] = []string{okT, k, v}
+			return
+		}
+		// string iteration: opaque
+		ok := vc.fresh("Bool", "next_ok")
 		k := vc.fresh(vc.sortOf(tt.At(1).Type()), "next_k")
 		v := vc.fresh(vc.sortOf(tt.At(2).Type()), "next_v")
 		if !isInvalid(tt.At(1).Type()) {
@@ -250,14 +292,6 @@ func (vc *VC) execInstr(fr *Frame, st *State, instr ssa.Instruction) {
 		}
 		if !isInvalid(tt.At(2).Type()) {
 			vc.typeFacts(st, v, tt.At(2).Type())
-		}
-		if mt, isMap := rng.X.Type().Underlying().(*types.Map); isMap {
-			m := vc.value(fr, st, rng.X)
-			dom, val := vc.mapSV(mt)
-			vc.fact(st.pc, fmt.Sprintf("(=> %s (and (select (select %s %s) %s) (= %s (select (select %s %s) %s))))",
-				ok, vc.get(st, dom), m, k, v, vc.get(st, val), m, k))
-			vc.fact(st.pc, fmt.Sprintf("(=> (= %s 0) (not %s))", m, ok))
-			vc.assume("map iteration order is arbitrary: each step yields an arbitrary key of the map (completeness of the traversal is not modelled)")
 		}
 		fr.tuples[x] = []string{ok, k, v}
 
@@ -830,4 +864,13 @@ func (vc *VC) constZero(t types.Type) string {
 		return "(- 1)" // id of the empty string literal is assigned first; see strLit
 	}
 	return "0"
+}
+
+
+type mapIter struct {
+	keyFn   string
+	n       string
+	pos     string
+	m       string
+	keyType types.Type
 }
